@@ -77,6 +77,9 @@ HCbb(e) ==
   LET ids == {id \in DOMAIN tq : tq[id].t = e.t} IN
   IF tcfg.edns = 0 /\ e.rec = 1 /\ e.rcode \in {0, 3} /\ "legacy" \notin DOMAIN e /\ e.rid \in DOMAIN tq /\ tq[e.rid].t = e.t /\ e.rid \notin got /\ e.st \in {"SUCCESS", "ENODATA", "ENOTFOUND"}
   THEN Rej(IF e.tcflag = 1 THEN "c20.truncated_answer_delivered" ELSE "c20.answer_delivered_before_it_was_complete")
+  \* a request whose UDP answer was truncated ends without ever having been sent over TCP (and no TCP connection attempt failed)
+  ELSE IF e.st \notin {"ECANCELLED", "EDESTRUCTION"} /\ ids \cap mustTcp # {} /\ ~tcfg.tcpfail
+  THEN Rej("c20.truncated_answer_not_retried_over_tcp")
   ELSE /\ due' = due \ ids /\ got' = got \ ids /\ mustTcp' = mustTcp \ ids
        /\ tq' = Without(tq, ids)
        /\ UNCHANGED <<tcfg, tfd, cseq, xv>> /\ Acc
@@ -102,6 +105,8 @@ HSk(e) ==
     [] e.op = "connect" /\ e.res # "err" /\ e.fd \in DOMAIN tfd -> tfd' = [tfd EXCEPT ![e.fd].srv = e.srv] /\ UNCHANGED <<tcfg, tq, due, got, mustTcp, cseq, xv>> /\ Acc
     [] e.op = "send" -> HSend(e)
     [] e.op = "recv" -> HRecv(e)
+    [] (e.op = "open" /\ e.res = "err" /\ e.tcp = 1) \/ (e.op \in {"connect", "getsockname"} /\ e.res = "err" /\ e.fd \in DOMAIN tfd /\ tfd[e.fd].tcp) ->
+         tcfg' = [tcfg EXCEPT !.tcpfail = TRUE] /\ UNCHANGED <<tfd, tq, due, got, mustTcp, cseq, xv>> /\ Acc
     [] e.op = "close" /\ e.fd \in DOMAIN tfd ->
          \* queries on a closed connection are requeued: nothing is owed for answers that were on it
          LET ids == IF tfd[e.fd].err THEN {id \in DOMAIN tq : tq[id].fd = e.fd} ELSE {} IN
@@ -110,7 +115,7 @@ HSk(e) ==
     [] OTHER -> Skip
 
 Handle(e) ==
-  CASE e.e = "init" -> tcfg' = e /\ UNCHANGED <<tfd, tq, due, got, mustTcp, cseq, xv>> /\ Acc
+  CASE e.e = "init" -> tcfg' = e @@ [tcpfail |-> FALSE] /\ UNCHANGED <<tfd, tq, due, got, mustTcp, cseq, xv>> /\ Acc
     [] e.e = "call" -> HCall(e)
     [] e.e = "sk" -> HSk(e)
     [] e.e = "env" -> IF e.op = "stream" /\ e.fd \in DOMAIN tfd
@@ -129,7 +134,7 @@ TNext ==
   /\ LET e == Tr[l] IN
        IF e.e = "reset" THEN
             /\ (hid # "" => PrintT(ToJson(Verdict)))
-            /\ tcfg' = [igntc |-> 0] /\ tfd' = <<>> /\ tq' = <<>> /\ due' = {} /\ got' = {} /\ mustTcp' = {} /\ cseq' = <<>>
+            /\ tcfg' = [igntc |-> 0, tcpfail |-> FALSE] /\ tfd' = <<>> /\ tq' = <<>> /\ due' = {} /\ got' = {} /\ mustTcp' = {} /\ cseq' = <<>>
             /\ ncall' = 0 /\ wr' = {}
             /\ bad' = FALSE /\ why' = [line |-> 0, label |-> ""] /\ hid' = e.id
        ELSE hid' = hid /\ (IF bad THEN Skip ELSE Handle(e))
